@@ -1767,9 +1767,17 @@ class Compiler:
             # A slot filler is a function of its own: it keeps its own
             # expression token and records failures against this
             # template (it is called from the macro's render function).
-            body = template("__token = None") + self._record_errors(
-                self.visit_Context(slot) or [ast.Pass()]
-            )
+            # It writes to the stream it is called with (the macro may
+            # be capturing its output for translation) and converts
+            # values using its own translation settings.
+            body = template("__append = __stream.append") + \
+                template("__token = None") + \
+                emit_func_convert("__convert") + \
+                emit_func_convert_and_escape("__quote") + \
+                self._record_errors(
+                    self.visit_Context(slot) or [ast.Pass()]
+                )
+            body = [TranslationContext(body, None, None)]
 
             assert self._current_slot.pop() == slot.name
 
